@@ -206,3 +206,44 @@ Contract(
     options={"fragment": ("if_prefix", "y != NIL_ID and y != z"), "fragment_result": "z"},
     props=("C05",), native={"skip": True},
 )
+
+# ---- _calculate_event_row_col: the diagonal neighbour that shares the event's corner with the cell.  The corner is characterised
+# as in _calc_event_pos (every corner of the cell lies counter-clockwise of the entering and clockwise of the exiting corner), so the
+# elevation averaged in _calc_event_elev is taken around the same corner whose bearing _calc_event_pos / _calculate_angle report
+_cy, _cx = "vs_dy((result[0] + event_row) / 2.0, viewpoint_row)", "vs_dx((result[1] + event_col) / 2.0, viewpoint_col)"
+_enter2 = " and ".join("cross2(%s, %s, vs_dx(%s, viewpoint_col), vs_dy(%s, viewpoint_row)) >= 0" % (_cx, _cy, cx, cy) for cy, cx in _CORNERS)
+_exit2 = " and ".join("cross2(vs_dx(%s, viewpoint_col), vs_dy(%s, viewpoint_row), %s, %s) >= 0" % (cx, cy, _cx, _cy) for cy, cx in _CORNERS)
+Contract(
+    M, "_calculate_event_row_col",
+    {"event_type": "int", "event_row": "int", "event_col": "int", "viewpoint_row": "int", "viewpoint_col": "int"},
+    requires=["event_type == 1 or event_type == -1 or event_type == 0"],
+    raises={"ValueError": "event_type == 0"},
+    result=("int", "int"),
+    ensures=[
+        "%s or (result[0] == event_row and result[1] == event_col)" % _V,
+        "not %s or ((result[0] == event_row - 1 or result[0] == event_row + 1) and (result[1] == event_col - 1 or result[1] == event_col + 1))" % _V,
+        "event_type != 1 or not %s or (%s)" % (_V, _enter2),
+        "event_type != -1 or not %s or (%s)" % (_V, _exit2),
+    ],
+    props=("C05",),
+    native={"opts": {"int_lo": -1, "int_hi": 4}},
+)
+
+# ---- _calc_event_elev: mean of the four cells around that corner when they are all inside the raster and not NaN, else the cell's own
+# elevation (inrast holds the three rows event_row-1 .. event_row+1)
+Contract(
+    M, "_calc_event_elev",
+    {"event_type": "int", "event_row": "int", "event_col": "int", "n_rows": "int", "n_cols": "int", "viewpoint_row": "int",
+     "viewpoint_col": "int", "inrast": "f2"},
+    requires=["event_type == 1 or event_type == -1", "inrast.shape[0] == 3 and inrast.shape[1] == n_cols",
+              "0 <= event_col and event_col < n_cols and 0 <= event_row and event_row < n_rows"],
+    result="float",
+    ensures=[
+        "same(result, inrast[1, event_col]) or any(any((dr == -1 or dr == 1) and (dc == -1 or dc == 1) and "
+        "0 <= event_row + dr and event_row + dr < n_rows and 0 <= event_col + dc and event_col + dc < n_cols and "
+        "not isnan(inrast[1 + dr, event_col + dc]) and not isnan(inrast[1 + dr, event_col]) and not isnan(inrast[1, event_col + dc]) and "
+        "same(result, (inrast[1 + dr, event_col + dc] + inrast[1 + dr, event_col] + inrast[1, event_col + dc] + inrast[1, event_col]) / 4.0) "
+        "for dc in range(-1, 2)) for dr in range(-1, 2))",
+    ],
+    props=("C05",), native={"skip": True},
+)
